@@ -132,7 +132,9 @@ def run():
     need("frames_by_offset.sort_by_key(|f|f.payload_offset);", eb, "frames: sort")
     need("letend=frame.payload_offset.checked_add(frame.payload_length).ok_or_else(", eb, "frames: checked_add")
     need("ifend>file_len{", eb, "frames: file length test")
-    need("ifframe.payload_offset<previous_end{", eb, "frames: overlap test")
+    need("letshares_previous_range=frame.payload_offset==previous_offset&&end==previous_end;", eb, "frames: shared range")
+    need("ifframe.payload_offset<previous_end&&!shares_previous_range{", eb, "frames: overlap test")
+    need("previous_end=end;previous_offset=frame.payload_offset;", eb, "frames: loop state")
     cb = squash(fn_body(lc, "compute_data_end"))
     need("letwal_region_end=header.wal_offset.saturating_add(header.wal_size);letmutmax_end=wal_region_end.max(header.footer_offset);",
          cb, "data_end: start value")
